@@ -156,6 +156,7 @@ impl Ctx {
         let known_hits = self.known_hits.lock().unwrap().clone();
         let mut exit = 0;
         let mut confirmed = 0;
+        let mut nondeterministic = 0;
         let dir = format!("{}/replays/{}", root(), self.id);
         for (key, (what, case, n)) in viol.iter() {
             let _ = std::fs::create_dir_all(&dir);
@@ -177,9 +178,9 @@ impl Ctx {
                 }
             }
             let reproduced = seen.iter().all(|l| l.contains("reproduced=true"));
-            if seen[0] != seen[1] || !reproduced {
+            if !reproduced {
                 println!("NONDETERMINISM property={} key={} replay={} observations={:?}", self.id, key, path, seen);
-                exit = 2;
+                nondeterministic += 1;
                 continue;
             }
             println!("VIOLATION property={} replay={} key={} occurrences={} :: {}", self.id, path, key, n, what);
@@ -187,6 +188,10 @@ impl Ctx {
             if exit == 0 {
                 exit = 1;
             }
+        }
+        if confirmed == 0 && nondeterministic > 0 {
+            // nothing reproducible was found: that is a failure of the machinery, never a verdict
+            exit = 2;
         }
         for k in &self.known {
             if let Some(n) = known_hits.get(&k.key) {
